@@ -3,6 +3,7 @@ processes."""
 from __future__ import annotations
 
 import dataclasses
+import itertools
 import json
 import os
 import pickle
@@ -43,6 +44,7 @@ RULE = ("graphs over every node kind (pvf/zoo.py).  For each graph g: the "
         "non-trivial = a component below the root was changed or the key "
         "crossed a process; distinct by (program, node, field)")
 RULE += '  Round-4 addition: every dtype-valued field is also mutated to the same type in the other byte order (key must change).'
+RULE += '  Round-5 addition: ~400 pairs of graphs that differ only in how a scalar is spelled (Python number / NumPy scalar of another width or kind, as axis length, shift, rank, index, constant or fill value): the keys are equal exactly when the graphs compare equal.'
 ASSUMPTIONS = [
     "creation-traceback tagging at its default (off)",
     "a changed copy is made with dataclasses.replace (pvf/reflect.py:rebuild)",
@@ -305,6 +307,27 @@ def case_oracle(case):
                                f"{type(n).__name__}: tag added and removed: "
                                "key differs from the original's", "untagged"
                                ), info
+        # a TAGGED dictionary of results: its key survives pickling and is
+        # not the untagged dictionary's
+        try:
+            from pvf.usertags import PvfTag
+            nd = build_pt(_no_data(spec)).dict_of_named_arrays()
+            nd_t = pt.make_dict_of_named_arrays(dict(nd._data),
+                                                tags=frozenset({PvfTag("d")}))
+            k_plain, k_tagged = key_of(nd), key_of(nd_t)
+            k_round = key_of(pickle.loads(pickle.dumps(nd_t)))
+        except Exception as e:  # noqa: BLE001
+            return Failure("pickle-exception", f"tagged dictionary: "
+                           f"{type(e).__name__}: {e}", exc_site(e)), info
+        if k_tagged == k_plain:
+            return Failure("component-ignored-by-key", "DictOfNamedArrays.tags "
+                           "changed: key unchanged", "DictOfNamedArrays.tags"
+                           ), info
+        if k_round != k_tagged:
+            return Failure("key-differs-after-pickling", "a tagged "
+                           "DictOfNamedArrays has another key after a pickle "
+                           "round trip (same process)", "pickle-tagged-dict"
+                           ), info
         try:
             info["blob"] = pickle.dumps(build_pt(
                 _no_data(spec)).dict_of_named_arrays())
@@ -355,7 +378,7 @@ def run_children(items, hashseeds):
         for hs in hashseeds:
             env = dict(os.environ)
             env["PYTHONHASHSEED"] = str(hs)
-            env["PYTHONPATH"] = ROOT
+            env["PYTHONPATH"] = ROOT + os.pathsep + os.environ.get("PYTHONPATH", "")
             p = subprocess.run([sys.executable, script, ROOT, path], env=env,
                                capture_output=True, text=True)
             line = [ln for ln in p.stdout.splitlines()
@@ -437,6 +460,15 @@ def run_shard(shard: int, nshards: int, seed: int, tier: str) -> ShardResult:
             keys.append(info["key"])
 
     hyp_run(cases(), body, seed, pl["examples"])
+    for k, (label, ta, tb) in enumerate(scalar_pairs()):
+        if k % nshards != shard:
+            continue
+        res.evaluations += 1
+        res.count("scalar_spelling_pairs")
+        f = scalar_pair_oracle(label, ta, tb)
+        res.nontrivial.add("pair:" + label)
+        if f is not None:
+            res.fail(f, {"scalar_pair": label})
     hs = [(seed * 11 + shard * 5 + k) % 1000 + 1 for k in range(pl["children"])]
     out = run_children(items, hs)
     res.count("cross_process_keys", 3 * len(items) * len(hs))
@@ -448,7 +480,112 @@ def run_shard(shard: int, nshards: int, seed: int, tier: str) -> ShardResult:
     return res
 
 
+def scalar_pairs():
+    """(label, thunk_a, thunk_b): graphs that differ only in how a scalar is
+    spelled - as a Python number or as a NumPy scalar of some width/kind.
+    Whatever == says about the pair, the keys must say the same."""
+    import pytato as pt
+    f8 = np.float64
+
+    def x():
+        return pt.make_placeholder("x", (4,), f8)
+    ints = [4, np.int8(4), np.int32(4), np.int64(4), np.uint16(4), np.intp(4)]
+    for a, b in itertools.combinations(ints, 2):
+        la = f"{type(a).__name__}/{type(b).__name__}"
+        yield ("placeholder-shape:" + la,
+               lambda a=a: pt.make_placeholder("p", (a, 3), f8),
+               lambda b=b: pt.make_placeholder("p", (b, 3), f8))
+        yield ("zeros-shape:" + la, lambda a=a: pt.zeros((a,), f8),
+               lambda b=b: pt.zeros((b,), f8))
+        yield ("roll-shift:" + la, lambda a=a: pt.roll(x(), a),
+               lambda b=b: pt.roll(x(), b))
+        yield ("recv-rank:" + la,
+               lambda a=a: pt.make_distributed_recv(a, 7, (3,), f8),
+               lambda b=b: pt.make_distributed_recv(b, 7, (3,), f8))
+        yield ("index:" + la, lambda a=a: pt.make_placeholder(
+            "q", (9,), f8)[a], lambda b=b: pt.make_placeholder(
+                "q", (9,), f8)[b])
+    # classes of one name that live in different modules (tags are often
+    # classes): unequal, so the graphs differ
+    c1 = type("HaloExchange", (), {"__module__": "pvf_fluid"})
+    c2 = type("HaloExchange", (), {"__module__": "pvf_wall"})
+    yield ("class-tag:recv", lambda: pt.make_distributed_recv(0, c1, (3,), f8),
+           lambda: pt.make_distributed_recv(0, c2, (3,), f8))
+    yield ("class-tag:recv-tuple",
+           lambda: pt.make_distributed_recv(0, (c1, 0), (3,), f8),
+           lambda: pt.make_distributed_recv(0, (c2, 0), (3,), f8))
+    yield ("class-tag:send", lambda: pt.staple_distributed_send(
+        x(), dest_rank=1, comm_tag=c1, stapled_to=x() + 1),
+        lambda: pt.staple_distributed_send(
+            x(), dest_rank=1, comm_tag=c2, stapled_to=x() + 1))
+    consts = [1, 1.0, True, np.int32(1), np.int64(1), np.float32(1),
+              np.float32(1e-45), np.float64(1), np.bool_(True), np.uint8(1),
+              np.int32(0), np.float32(0), 0, np.complex64(1), np.float16(1),
+              np.int16(15360), np.int32(1065353216)]
+    for a, b in itertools.combinations(consts, 2):
+        la = f"{type(a).__name__}({a!r})/{type(b).__name__}({b!r})"
+        yield ("add-const:" + la, lambda a=a: x() + a, lambda b=b: x() + b)
+        yield ("full:" + la, lambda a=a: pt.full((2,), a, f8),
+               lambda b=b: pt.full((2,), b, f8))
+
+
+def scalar_pair_oracle(label, ta, tb) -> Failure | None:
+    with warnings.catch_warnings():
+        warnings.simplefilter("ignore")
+        try:
+            a, b = ta(), tb()
+        except Exception:  # noqa: BLE001
+            return None         # (pytato refuses the spelling)
+        try:
+            ka, kb = key_of(a), key_of(b)
+        except Exception as e:  # noqa: BLE001
+            return Failure("key-exception", f"{label}: {type(e).__name__}: {e}",
+                           exc_site(e))
+        eq = bool(a == b)
+    where = label.split(":")[0]
+    if eq and ka != kb:
+        return Failure("equal-graphs-different-keys", f"{label}: the graphs "
+                       "compare equal, their keys differ", where)
+    if not eq and ka == kb:
+        return Failure("different-graphs-same-key", f"{label}: the graphs "
+                       "compare unequal, their keys are the same", where)
+    return None
+
+
+def _kind_of_spelling(tname: str) -> str:
+    t = tname.lower()
+    if t.startswith("bool"):
+        return "b"
+    if t.startswith(("int", "uint", "long")):
+        return "i"
+    if t.startswith("float") or t in ("half", "double", "single"):
+        return "f"
+    if t.startswith("complex"):
+        return "c"
+    return "?"
+
+
+def _known_cross_kind_scalars(case, failure) -> bool:
+    """the two spellings are numbers of different KINDS (bool / integer /
+    floating / complex) that compare equal (1 == 1.0 == True)"""
+    import re as _re
+    label = case.get("scalar_pair", "") if isinstance(case, dict) else ""
+    m = _re.match(r"^[\w-]+:(\w+)\(.*\)/(\w+)\(.*\)$", label)
+    if not m:
+        return False
+    ka, kb = _kind_of_spelling(m.group(1)), _kind_of_spelling(m.group(2))
+    return "?" not in (ka, kb) and ka != kb
+
+
+KNOWN_PREDICATES = {"cross_kind_scalars": _known_cross_kind_scalars}
+
+
 def replay(case) -> Failure | None:
+    if "scalar_pair" in case:
+        for label, ta, tb in scalar_pairs():
+            if label == case["scalar_pair"]:
+                return scalar_pair_oracle(label, ta, tb)
+        return None
     f, info = case_oracle(case)
     if f is None and case.get("cross_process") and "blob" in info:
         items = [(json.dumps(case["spec"]), json.dumps(_no_data(case["spec"])),
